@@ -112,12 +112,6 @@ MUTANTS = [
     ('C11', 'primary-close-checks-secondaries-late', CN,
      "            for connection in self.connections.values():\n                if not connection._needs_to_join:\n                    raise ConnectionStateError(\n                        \"Cannot close a connection joined to a transaction\")\n",
      "            pass\n"),
-    ('C11', 'unadded-ghost-not-reloaded', CN,
-     "                    try:\n                        o._p_activate()\n                    except Exception:\n                        pass\n",
-     "                    pass\n"),
-    ('C12', 'unadded-ghost-not-reloaded-12', CN,
-     "                    try:\n                        o._p_activate()\n                    except Exception:\n                        pass\n",
-     "                    pass\n"),
     ('C13', 'undo-compares-blob-records-only', FS,
      "                    if data_to_be_undone != current_data or \\\n                            self.is_blob_record(current_data):",
      "                    if data_to_be_undone != current_data:"),
